@@ -93,7 +93,7 @@ def run(ctx):
     # AD 9-23 reform window: month m then begins about a month before civil month m; late = far-future drift)
     def s2l_shifted(x):
         which, n = x
-        ms = early if which == 'early' else late
+        ms = {'early': early, 'late': late, 'leap12': leap12}[which]
         cme = CalModel(I, terms, ms)
         del I.overrides['SolarDay::get_lunar_day']
         ld = t.m(cme.solar_day_n(n), 'get_lunar_day')
@@ -101,15 +101,17 @@ def run(ctx):
 
     def s2l_shifted_orc(x):
         which, n = x
-        for r in (early if which == 'early' else late):
+        for r in {'early': early, 'late': late, 'leap12': leap12}[which]:
             if r['first'] <= n < r['first'] + r['count']:
                 return ((r['year'], r['month'], n - r['first'] + 1), n)
     early = synthetic_months(Y - 1, CAL.jdn(Y - 1, 1, 6), 3, leap={Y: 7}, prev_months=3, auto_leap=False)
     late = synthetic_months(Y - 1, CAL.jdn(Y - 1, 3, 2), 3, leap={Y: 2}, prev_months=4, auto_leap=False)
-    sdom = [('early', n) for n in range(CAL.jdn(Y, 1, 1), CAL.jdn(Y, 12, 31) + 1)] + [('late', n) for n in range(CAL.jdn(Y, 1, 1), CAL.jdn(Y, 12, 31) + 1)]
+    leap12 = synthetic_months(Y - 1, CAL.jdn(Y - 1, 1, 24), 2, leap={Y - 1: 12}, prev_months=3, auto_leap=False)     # previous lunar year ends with a leap 12th month
+    sdom = [('early', n) for n in range(CAL.jdn(Y, 1, 1), CAL.jdn(Y, 12, 31) + 1)] + [('late', n) for n in range(CAL.jdn(Y, 1, 1), CAL.jdn(Y, 12, 31) + 1)] \
+        + [('leap12', n) for n in range(CAL.jdn(Y - 1, 11, 25), CAL.jdn(Y, 3, 20))]
     table(ctx, 'PETE-SCENARIO', 'SolarDay::get_lunar_day:shifted-new-year', sdom, s2l_shifted, s2l_shifted_orc,
           'civil -> lunar -> civil is the identity also when lunar month m begins about a month before (or after) civil month m',
-          lambda x: '%s new year, %d-%02d-%02d' % ((x[0],) + CAL.from_jdn(x[1])), fn_site(p, 'SolarDay::get_lunar_day'))
+          lambda x: '%s scenario, %d-%02d-%02d' % ((x[0],) + CAL.from_jdn(x[1])), fn_site(p, 'SolarDay::get_lunar_day'))
     CalModel(I, terms, months)
     del I.overrides['SolarDay::get_lunar_day']
 
